@@ -35,6 +35,11 @@ pub enum Scenario {
     /// Axle::<n>::get_terminal(index): in range => a distinct slot inside the axle object; out of range => a panic
     /// (or still a slot of this axle), never a reference to memory outside the object
     AxleIndex { n: u8, index: u64 },
+    /// run-time side of "no borrow or Reference outlives its object" for the safe constructors: a Borrow / BorrowMut of a
+    /// lock-backed Reference keeps the lock for as long as it lives (0 Arc<Mutex>, 1 Arc<RwLock>; observed with try_lock on the
+    /// shared Arc), and (2) evaluating a static_* call site a second time hands out the same, untouched object - nobody can
+    /// replace or drop the target under a live borrow. Shares C17's drivers.
+    LiveTarget(u8),
     /// the scratch-array enumeration (arity 1..=max) as a plain program under `cargo +nightly miri run`, hook off
     Miri { max_arity: u8 },
     /// probe program by index into the generated list; `control` = its must-compile twin
@@ -560,6 +565,16 @@ pub fn check(s: &Scenario) -> CheckResult {
         Scenario::TerminalRead { own, partner, linked, order, from_partner } => check_terminal(*own, *partner, *linked, *order, *from_partner),
         Scenario::AxleNew(n) => check_axle(*n),
         Scenario::AxleIndex { n, index } => check_axle_index(*n, *index),
+        Scenario::LiveTarget(which) => {
+            let r = match which % 3 {
+                2 => crate::c17::statics(),
+                v => crate::c17::lock_held(v),
+            };
+            match r {
+                Ok(()) => Ok(CaseInfo::new(true, hash_of(&("live-target", which % 3))).class("target cannot be replaced under a live borrow")),
+                Err(v) => Err(Violation::new(format!("C16/lifetime/live-target/{}", v.key.trim_start_matches("C17/")), v.message)),
+            }
+        }
         Scenario::Probe { id, control } => check_probe(id, *control),
         Scenario::Miri { max_arity } => check_miri(*max_arity),
     }
@@ -568,7 +583,7 @@ pub fn check(s: &Scenario) -> CheckResult {
 pub struct C16;
 impl Property for C16 {
     const ID: &'static str = "C16";
-    const RULE: &'static str = "(a) exhaustive, with the cfg(rrtk_verif) hook that fills the four MaybeUninit scratch arrays with 0x7F bytes compiled in: n-ary sum and product of arity 1..8 x all 2^N present/absent patterns (inputs 2^i / the i-th prime, so the exact result identifies the contributing subset) x 3 timestamp permutations, terminal state read x own/partner/linked combinations x 5 timestamp orders (partner newer, own newer, equal, the two extremes) x both ends, Axle::<N>::new() for N = 0..8 followed by use of every terminal, and Axle::<N>::get_terminal(i) for every in-range index and 12 indices past the end (in range: the i-th slot inside the object; past the end: a panic, never an address outside the axle); the same enumeration also runs as a plain program under `cargo +nightly miri run` without the hook (arity <= 5 quick, <= 8 thorough). (b) generated #![forbid(unsafe_code)] probe programs: 11 terminal accessors x {drop, move into Box, move to another binding, move into Vec, escape the scope, connect to a longer-lived terminal then drop} x {read through the reference, connect it}, plus probes that try to build a dangling Borrow / BorrowMut / Reference / ReferenceUnsafe or call the unsafe constructors outside unsafe; each probe is compiled by rustc as its own crate against the live rrtk; oracle = must be rejected; every probe's control twin (device kept alive) must compile. Non-trivial = a pattern with >= 1 absent and >= 1 present input / a probe whose control twin compiles; distinct = pattern or probe id.";
+    const RULE: &'static str = "(a) exhaustive, with the cfg(rrtk_verif) hook that fills the four MaybeUninit scratch arrays with 0x7F bytes compiled in: n-ary sum and product of arity 1..8 x all 2^N present/absent patterns (inputs 2^i / the i-th prime, so the exact result identifies the contributing subset) x 3 timestamp permutations, terminal state read x own/partner/linked combinations x 5 timestamp orders (partner newer, own newer, equal, the two extremes) x both ends, Axle::<N>::new() for N = 0..8 followed by use of every terminal, and Axle::<N>::get_terminal(i) for every in-range index and 12 indices past the end (in range: the i-th slot inside the object; past the end: a panic, never an address outside the axle); a Borrow / BorrowMut of an Arc<Mutex> / Arc<RwLock> Reference holds its lock while it lives and a static_* call site evaluated twice hands out the same untouched object (the target cannot be replaced or dropped under a live borrow); the same enumeration also runs as a plain program under `cargo +nightly miri run` without the hook (arity <= 5 quick, <= 8 thorough). (b) generated #![forbid(unsafe_code)] probe programs: 11 terminal accessors x {drop, move into Box, move to another binding, move into Vec, escape the scope, connect to a longer-lived terminal then drop} x {read through the reference, connect it}, plus probes that try to build a dangling Borrow / BorrowMut / Reference / ReferenceUnsafe or call the unsafe constructors outside unsafe; each probe is compiled by rustc as its own crate against the live rrtk; oracle = must be rejected; every probe's control twin (device kept alive) must compile. Non-trivial = a pattern with >= 1 absent and >= 1 present input / a probe whose control twin compiles; distinct = pattern or probe id.";
     type Scenario = Scenario;
     fn strategy(_tier: Tier) -> BoxedStrategy<Scenario> {
         Just(Scenario::AxleNew(0)).boxed()
@@ -608,6 +623,10 @@ impl Property for C16 {
                 sink(Scenario::AxleIndex { n: k, index });
                 n += 1;
             }
+        }
+        for which in 0..3u8 {
+            sink(Scenario::LiveTarget(which));
+            n += 1;
         }
         let ps = probes();
         for p in &ps {
